@@ -35,6 +35,11 @@ impl FormatWriter {
         self.output
     }
 
+    /// Whether the output so far ends with a line break
+    pub fn ends_with_newline(&self) -> bool {
+        self.output.ends_with('\n')
+    }
+
     /// Increase indentation level
     pub fn indent(&mut self) {
         self.indent_level += 1;
